@@ -8,6 +8,7 @@ import (
 
 const (
 	validVarFieldName = "validVar"
+	maxElemTypeDepth  = 32 // 切片/数组类型嵌套的最大层数
 )
 
 // VVar 验证单字段
@@ -48,6 +49,7 @@ func (v *VVar) Valid(src interface{}) error {
 	}
 	ty := reflectValue.Type()
 	supportType := false
+	elemDepth := 0
 
 again:
 	// 判断是否能进行验证
@@ -55,6 +57,10 @@ again:
 	case reflect.String, reflect.Bool:
 		supportType = true
 	case reflect.Slice, reflect.Array: // 再验证下里面的内容类型
+		// 自引用的切片类型(如: type T []T)永远取不到最终的元素类型, 限制层数防止死循环
+		if elemDepth++; elemDepth > maxElemTypeDepth {
+			return errors.New("src no support")
+		}
 		ty = ty.Elem()
 		goto again
 	// case reflect.Struct: // 为了防止调用混乱, 这里不支持
